@@ -13,6 +13,7 @@ import (
 	"github.com/bytemare/secp256k1/internal/field"
 	"github.com/bytemare/secp256k1/verifharness/endcore"
 	"github.com/bytemare/secp256k1/verifharness/gen"
+	_ "github.com/bytemare/secp256k1/verifharness/pt" // registers the cold-start exercise
 	"github.com/bytemare/secp256k1/verifharness/ref"
 )
 
